@@ -7,6 +7,9 @@
 //!     expression (call result, parenthesised closure, tuple projection, array element, generic identity) ·
 //!     `x.m(..)` on a struct / enum / generic struct / builtin type / parameter / `self` ·
 //!     `T::m(x, ..)` on a struct / enum / generic struct, `T::s(..)` without receiver ·
+//!     `x.m(..)` / `T::m(x, ..)` where a generic impl AND an impl of one instantiation define `m` (receiver of exactly
+//!     that instantiation / of another one / generic inside a generic caller / constructed in place; struct and enum),
+//!     and where only an impl of one instantiation defines it ·
 //!     `Tr::m(x, ..)` on int32 / struct / bounded type parameter / `dyn Tr` (local and parameter) ·
 //!     `x.m(..)` on a bounded type parameter · enum constructors (plain and generic) ·
 //!     every builtin function whose signature is over literal-constructible types (read off the real genv)
@@ -196,7 +199,7 @@ pub fn emit_counts(
 // (1) the catalogue
 
 /// the declarations a catalogue program may need: (identifiers that must ALL be mentioned, text)
-fn prelude_items() -> Vec<(Vec<String>, String)> {
+pub(super) fn prelude_items() -> Vec<(Vec<String>, String)> {
     let mut v: Vec<(Vec<String>, String)> = Vec::new();
     let mut add = |when: &[&str], text: String| v.push((when.iter().map(|x| x.to_string()).collect(), text));
     add(&["Opt"], "enum Opt[T] { Non, Som(T) }\n".into());
@@ -245,6 +248,28 @@ fn prelude_items() -> Vec<(Vec<String>, String)> {
         writeln!(s, "}}").unwrap();
         add(&[key], s);
     }
+    // overlapping inherent impls: `impl[T] Ov[T]` and `impl Ov[int32]` both define m0..m3 (the typer resolves
+    // `x.m(..)` and `Ov::m(x, ..)` through the receiver's full type: exact instantiation first, generic impl as
+    // the fallback); `impl Ov[bool]` alone defines x0..x3.  `OvE` is the same for an enum.
+    add(&["Ov"], "struct Ov[T] { value: T }\n".into());
+    add(&["OvE"], "enum OvE[T] { A(T), B }\n".into());
+    for key in ["Ov", "OvE"] {
+        let mut s = String::new();
+        for (head, self_ty, vt, base) in [(format!("impl[T] {key}[T]"), format!("{key}[T]"), "T", "1"), (format!("impl {key}[int32]"), format!("{key}[int32]"), "int32", "2")] {
+            writeln!(s, "{} {{", head).unwrap();
+            for n in 0..=3 {
+                let ps: Vec<String> = if n >= 1 { std::iter::once(format!("v: {}", vt)).chain((1..n).map(|i| format!("a{}: int32", i))).collect() } else { vec![] };
+                writeln!(s, "    fn m{n}(self: {}{}{}) -> int32 {{ {} }}", self_ty, if ps.is_empty() { "" } else { ", " }, ps.join(", "), sum_text(n, 1, base)).unwrap();
+            }
+            writeln!(s, "}}").unwrap();
+        }
+        writeln!(s, "impl {key}[bool] {{").unwrap();
+        for n in 0..=3 {
+            writeln!(s, "    fn x{n}(self: {key}[bool]{}{}) -> int32 {{ {} }}", if n > 0 { ", " } else { "" }, params_text(n, 0), sum_text(n, 0, "3")).unwrap();
+        }
+        writeln!(s, "}}").unwrap();
+        add(&[key], s);
+    }
     v
 }
 
@@ -265,33 +290,52 @@ fn fn_ty_text(n: usize) -> String {
 /// the declarations `text` mentions (by identifier), in catalogue order
 fn prelude_for(items: &[(Vec<String>, String)], text: &str) -> String {
     let idents: std::collections::HashSet<&str> = text.split(|c: char| !(c.is_ascii_alphanumeric() || c == '_')).filter(|x| !x.is_empty()).collect();
-    items.iter().filter(|(when, _)| when.iter().all(|w| idents.contains(w.as_str()))).map(|(_, t)| t.as_str()).collect()
+    let mut out = String::new();
+    for (_, t) in items.iter().filter(|(when, _)| when.iter().all(|w| idents.contains(w.as_str()))) {
+        // of an INHERENT impl block only the methods the program mentions are kept (smaller witnesses; a trait impl
+        // must stay complete)
+        let inherent = t.starts_with("impl") && !t.lines().next().unwrap_or("").contains(" for ");
+        for line in t.lines() {
+            if inherent && let Some(rest) = line.strip_prefix("    fn ") {
+                let name: String = rest.chars().take_while(|c| c.is_ascii_alphanumeric() || *c == '_').collect();
+                if !idents.contains(name.as_str()) {
+                    continue;
+                }
+            }
+            out.push_str(line);
+            out.push('\n');
+        }
+    }
+    out
 }
 
 /// where a call sits: everything needed to write the program around PREFIX(ARGS)
 #[derive(Clone)]
-struct Site {
-    form: &'static str,
+pub(super) struct Site {
+    pub(super) form: &'static str,
     /// declared number of entries of the written argument list (receiver included for path forms)
-    n: usize,
+    pub(super) n: usize,
     /// generics + parameters of the enclosing function, e.g. `[T: Tr](x: T)`; `None` → custom `open`
-    sig: String,
+    pub(super) sig: String,
     /// actual arguments of the enclosing function in `main`
-    actuals: String,
+    pub(super) actuals: String,
     /// statements before the call, inside the enclosing function
-    setup: String,
-    prefix: String,
-    full: Vec<String>,
+    pub(super) setup: String,
+    pub(super) prefix: String,
+    pub(super) full: Vec<String>,
     /// extra arguments appended by the "too many" variants
-    extra: &'static str,
-    rt: String,
-    dv: String,
+    pub(super) extra: &'static str,
+    pub(super) rt: String,
+    pub(super) dv: String,
     /// declared-count twin when the call is not PREFIX(full) (constructor without payload: no parentheses)
-    good_call: Option<String>,
+    pub(super) good_call: Option<String>,
     /// further ill-typed spellings of this call: (label, call text)
-    also_bad: Vec<(&'static str, String)>,
+    pub(super) also_bad: Vec<(&'static str, String)>,
     /// enclosing function is a method: (`impl P {` …, invocation in main)
-    method_of: Option<(&'static str, &'static str)>,
+    pub(super) method_of: Option<(&'static str, &'static str)>,
+    /// positions of the written argument list whose parameter is a type variable that nothing else at the call
+    /// fixes (`g1[T](x: T)`: any argument type is well-typed there) — c03argty.rs puts no wrong type at them
+    pub(super) free: Vec<usize>,
 }
 
 impl Site {
@@ -310,6 +354,7 @@ impl Site {
             good_call: None,
             also_bad: vec![],
             method_of: None,
+            free: vec![],
         }
     }
     fn sig(mut self, sig: &str, actuals: &str) -> Site {
@@ -330,6 +375,10 @@ impl Site {
         self.extra = e;
         self
     }
+    fn free(mut self, at: &[usize]) -> Site {
+        self.free = at.to_vec();
+        self
+    }
 }
 
 fn ints(n: usize) -> Vec<String> {
@@ -339,7 +388,7 @@ fn with(first: &str, n: usize) -> Vec<String> {
     std::iter::once(first.to_string()).chain(ints(n)).collect()
 }
 
-const POSITIONS: &[(&str, &str)] = &[
+pub(super) const POSITIONS: &[(&str, &str)] = &[
     ("tail", "CALL"),
     ("let-annotated", "let r: RT = CALL; r"),
     ("let-inferred", "let r = CALL; r"),
@@ -371,7 +420,7 @@ fn simple_ty(t: &Ty) -> Option<(&'static str, &'static str)> {
     })
 }
 
-fn sites(genv: &GlobalTypeEnv) -> (Vec<Site>, usize, usize) {
+pub(super) fn sites(genv: &GlobalTypeEnv) -> (Vec<Site>, usize, usize) {
     let mut v: Vec<Site> = Vec::new();
     let p_setup = "let p = P::mk(); ";
     let e_setup = "let e = E::K0; ";
@@ -380,8 +429,8 @@ fn sites(genv: &GlobalTypeEnv) -> (Vec<Site>, usize, usize) {
         // ---- named functions
         v.push(Site::new("function", format!("f{n}"), ints(n)));
         if n >= 1 {
-            v.push(Site::new("generic-function", format!("g{n}"), with("\"s\"", n - 1)));
-            v.push(Site::new("function-in-generic-caller", format!("g{n}"), with("x", n - 1)).sig("[T](x: T)", "true"));
+            v.push(Site::new("generic-function", format!("g{n}"), with("\"s\"", n - 1)).free(&[0]));
+            v.push(Site::new("function-in-generic-caller", format!("g{n}"), with("x", n - 1)).sig("[T](x: T)", "true").free(&[0]));
             v.push(
                 Site::new(
                     "extern-function",
@@ -431,6 +480,28 @@ fn sites(genv: &GlobalTypeEnv) -> (Vec<Site>, usize, usize) {
             }
             v.push(s);
         }
+        // ---- methods of overlapping inherent impls (generic impl + impl of one instantiation), both syntaxes, for a
+        // receiver of exactly the instantiation, of another instantiation (generic fallback), of the generic type
+        // inside a generic caller; and methods only an instantiation impl defines
+        {
+            let tail = |first: &str| -> Vec<String> { if n == 0 { vec![] } else { with(first, n - 1) } };
+            let recv = |r: &str, first: &str| -> Vec<String> { std::iter::once(r.to_string()).chain(tail(first)).collect() };
+            let oi = "let oi: Ov[int32] = Ov { value: 1 }; ";
+            let os = "let os: Ov[string] = Ov { value: \"s\" }; ";
+            let ob = "let ob: Ov[bool] = Ov { value: true }; ";
+            v.push(Site::new("path:overlapped-exact-impl", format!("Ov::m{n}"), recv("oi", "5")).setup(oi));
+            v.push(Site::new("path:overlapped-generic-fallback", format!("Ov::m{n}"), recv("os", "\"t\"")).setup(os));
+            v.push(Site::new("path:overlapped-in-generic-caller", format!("Ov::m{n}"), recv("x", "v")).sig("[T](x: Ov[T], v: T)", "Ov { value: \"s\" }, \"t\""));
+            v.push(Site::new("path:overlapped-constructed-receiver", format!("Ov::m{n}"), recv("Ov { value: 1 }", "5")));
+            v.push(Site::new("dot:overlapped-exact-impl", format!("oi.m{n}"), tail("5")).setup(oi));
+            v.push(Site::new("dot:overlapped-generic-fallback", format!("os.m{n}"), tail("\"t\"")).setup(os));
+            v.push(Site::new("dot:overlapped-in-generic-caller", format!("x.m{n}"), tail("v")).sig("[T](x: Ov[T], v: T)", "Ov { value: \"s\" }, \"t\""));
+            v.push(Site::new("path:instantiation-only-impl", format!("Ov::x{n}"), with("ob", n)).setup(ob));
+            v.push(Site::new("dot:instantiation-only-impl", format!("ob.x{n}"), ints(n)).setup(ob));
+            v.push(Site::new("path:overlapped-enum-exact-impl", format!("OvE::m{n}"), recv("ei", "5")).setup("let ei: OvE[int32] = OvE::A(1); "));
+            v.push(Site::new("path:overlapped-enum-generic-fallback", format!("OvE::m{n}"), recv("es", "\"t\"")).setup("let es: OvE[string] = OvE::B; "));
+            v.push(Site::new("dot:overlapped-enum-exact-impl", format!("ei.m{n}"), tail("5")).setup("let ei: OvE[int32] = OvE::A(1); "));
+        }
         // ---- trait methods
         v.push(Site::new("trait-path:int32", format!("Tr::t{n}"), with("5", n)));
         v.push(Site::new("trait-path:struct", format!("Tr::t{n}"), with("p", n)).setup(p_setup));
@@ -451,7 +522,7 @@ fn sites(genv: &GlobalTypeEnv) -> (Vec<Site>, usize, usize) {
     }
     v.push(Site::new("dot:builtin-type", "i.to_string", vec![]).setup("let i: int32 = 5; ").rt("string", "\"d\""));
     {
-        let mut s = Site::new("constructor:generic-enum", "Opt::Som", vec!["1".to_string()]).rt("Opt[int32]", "Opt::Non");
+        let mut s = Site::new("constructor:generic-enum", "Opt::Som", vec!["1".to_string()]).rt("Opt[int32]", "Opt::Non").free(&[0]);
         s.also_bad.push(("constructor-without-argument-list", "Opt::Som".to_string()));
         v.push(s);
         let mut s = Site::new("constructor:generic-enum", "Opt::Non", vec![]).rt("Opt[int32]", "Opt::Som(1)");
@@ -471,7 +542,8 @@ fn sites(genv: &GlobalTypeEnv) -> (Vec<Site>, usize, usize) {
         ("vec_len", "let vv: Vec[int32] = vec_push(vec_new(), 1); ", vec!["vv"], "int32", "0"),
     ] {
         if genv.value_env.funcs.get(name).is_some_and(|s| matches!(s.origin, FnOrigin::Builtin)) {
-            v.push(Site::new("builtin:polymorphic", name, full.iter().map(|x| x.to_string()).collect()).setup(setup).rt(rt, dv));
+            // `ref(x)`: the argument may have any type (the result type is read off it)
+            v.push(Site::new("builtin:polymorphic", name, full.iter().map(|x| x.to_string()).collect()).setup(setup).rt(rt, dv).free(if name == "ref" { &[0] } else { &[] }));
         }
     }
     // ---- every builtin over literal-constructible types, read off the real environment
@@ -494,7 +566,7 @@ fn sites(genv: &GlobalTypeEnv) -> (Vec<Site>, usize, usize) {
     (v, n_builtins, n_simple)
 }
 
-fn program(items: &[(Vec<String>, String)], s: &Site, pos: &str, call: &str) -> String {
+pub(super) fn program(items: &[(Vec<String>, String)], s: &Site, pos: &str, call: &str) -> String {
     let body = pos.replace("CALL", call).replace("RT", &s.rt).replace("DV", &s.dv);
     let site = format!("fn site{} -> {} {{ {}{} }}", s.sig, s.rt, s.setup, body);
     let rest = match s.method_of {
@@ -504,7 +576,7 @@ fn program(items: &[(Vec<String>, String)], s: &Site, pos: &str, call: &str) -> 
     format!("{}{}", prelude_for(items, &rest), rest)
 }
 
-fn outcome(st: &Staged) -> (&'static str, &'static str, String) {
+pub(super) fn outcome(st: &Staged) -> (&'static str, &'static str, String) {
     match &st.stop {
         None => ("accepted", "", String::new()),
         Some((k, stage, m)) => (if *k == "reject" { "rejected" } else { "panic" }, *stage, m.clone()),
